@@ -54,7 +54,14 @@ def compile_file(build, gir_path, out_path, includedirs=()):
 def ensure_dep_typelibs(build):
     """Compile deps/*.gir into <builddir>/typelibs once per build; returns that directory."""
     d = os.path.join(build.dir, 'typelibs')
-    ok = os.path.join(d, 'OK2')
+    import hashlib
+    h = hashlib.sha1()
+    for dd in (DEPS, DEPS_C06):
+        for f in sorted(os.listdir(dd)):
+            if f.endswith('.gir'):
+                with open(os.path.join(dd, f), 'rb') as fh:
+                    h.update(f.encode() + b'\0' + fh.read())
+    ok = os.path.join(d, 'OK-' + h.hexdigest()[:12])      # re-done whenever a dependency GIR changes
     if os.path.exists(ok):
         return d
     os.makedirs(d, exist_ok=True)
